@@ -76,6 +76,7 @@ def parseLeaf : List String → Option (Leaf × List String)
   | "failure" :: m :: r => do some (.ver (.failure (← unhex m)), r)
   | "ping" :: s :: h :: p :: q :: r => do some (.ping (← unhex s) (← unhex h) (← unhex p) (← unhex q), r)
   | "nop" :: r => some (.nop, r)
+  | "watch" :: id :: r => do let _ ← id.toNat?; some (.nop, r)   -- harness probe verifier that never records: a no-op in reports
   | "fail" :: r => some (.fail, r)
   | _ => none
 
